@@ -4,13 +4,13 @@ set -e
 dest=$1; shift
 cd /verif
 base=$(git -C $dest rev-parse HEAD)
-files=$(for t in "$@"; do git diff --name-only $base int_$t; done | sort | uniq -c | awk '{print $1":"$2}')
+files=$(for t in "$@"; do git diff --name-only $(git merge-base $base int_$t) int_$t; done | sort | uniq -c | awk '{print $1":"$2}')
 for cf in $files; do
   n=${cf%%:*}; f=${cf#*:}
   case $f in agents/*) continue;; esac
   vs=""
   for t in "$@"; do
-    if git diff --name-only $base int_$t | grep -qx "$f"; then
+    if git diff --name-only $(git merge-base $base int_$t) int_$t | grep -qx "$f"; then
       mkdir -p /tmp/int_variants/$t/$(dirname $f); git show int_$t:$f > /tmp/int_variants/$t/$f; vs="$vs /tmp/int_variants/$t/$f"
     fi
   done
